@@ -1,4 +1,6 @@
 """C01 on the whole-program machine: theorems in coq/props/C01.v, whole-trace correspondence, monitor(s) ['C01']"""
+import os
+
 from harness import machine_prop
 from harness.props._machine_common import TRUSTED, ASSUMPTIONS, RULE  # noqa
 
@@ -19,9 +21,104 @@ def run(ctx):
     # a delay must end at exactly `clock at the wait + d` (the same float expression); the model uses integers, so this
     # family, too, is checked by the oracle on the implementation only
     machine_prop.run(ctx, [('timers', 60, 1500, {'float_times': True})], MONITORS, model=False)
+    sd_backend(ctx, ctx.n(80, 1500))
+    nested_runs(ctx, ctx.n(20, 300))
+
+
+def sd_backend(ctx, n):
+    """the same guarantees under the alternative wait queue (USIM_WAITQUEUE=SD): the timers family is run in a child
+    interpreter with that backend, the C01 monitor runs there, and the traces must equal those of the default
+    backend (which the model predicted above)"""
+    from harness import gen, dsl
+    from harness.props import C02
+    scs = [gen.generate(ctx.rng, 'timers') for _ in range(n)]
+    base = [dsl.run_scenario(sc)[0] for sc in scs]
+    os.environ['VERIF_MONITORS'] = 'C01'
+    try:
+        res = C02.run_configs(ctx, scs, [('waitqueue-SD', {'USIM_WAITQUEUE': 'SD'}, [])])
+    finally:
+        del os.environ['VERIF_MONITORS']
+    st, data = res['waitqueue-SD']
+    if st != 'ok':
+        ctx.fail({'configuration': 'waitqueue-SD'}, 'the SD wait-queue child crashed: %s' % data[:300], family='sd-backend')
+        return
+    for i, m, expl, finding in data['monitor_failures']:
+        ctx.fail(scs[i], '[%s, USIM_WAITQUEUE=SD] %s' % (m, expl), finding=finding, family='sd-backend')
+    for i, (sc, tr) in enumerate(zip(scs, base)):
+        ctx.count(sc, nontrivial=len(tr) > 4)
+        ctx.bump('family:sd-backend')
+        if data['traces'][i] != tr and tr[-2][1] not in (92, 94):
+            ctx.fail(sc, 'under USIM_WAITQUEUE=SD the trace differs from the default wait queue: %r vs %r'
+                     % (data['traces'][i][:12], tr[:12]), family='sd-backend')
+
+
+def nested_runs(ctx, n):
+    """timed waits of an outer simulation around a complete inner `run()` made by one of its activities: the outer
+    clock is untouched by the inner simulation and the outer waits still end at exactly clock + d"""
+    import usim
+    for _ in range(n):
+        d1, d2, d3 = (ctx.rng.choice([0, 1, 2, 3, 5]) for _ in range(3))
+        start_in = ctx.rng.choice([0, 7, -3])
+        inner_ds = [ctx.rng.choice([1, 2, 4]) for _ in range(ctx.rng.choice([1, 2, 3]))]
+        case = {'nested_run': dict(d1=d1, d2=d2, d3=d3, inner_start=start_in, inner_delays=inner_ds)}
+        obs = []
+
+        async def inner(d):
+            t0 = usim.time.now
+            await (usim.time + d)
+            obs.append(('inner', t0, d, usim.time.now))
+
+        async def outer():
+            await (usim.time + d1)
+            a = usim.time.now
+            usim.run(*[inner(d) for d in inner_ds], start=start_in)
+            b = usim.time.now
+            await (usim.time + d2)
+            c = usim.time.now
+            await (usim.time == c + d3)
+            obs.append(('outer', a, b, c, usim.time.now))
+
+        try:
+            usim.run(outer(), start=10)
+        except BaseException as e:   # noqa
+            ctx.fail(case, 'timed waits around a nested run() failed with %r' % (e,), family='nested-runs')
+            continue
+        ctx.count(case, nontrivial=True)
+        ctx.bump('family:nested-runs')
+        o = [x for x in obs if x[0] == 'outer']
+        if not o or o[0][1:] != (10 + d1, 10 + d1, 10 + d1 + d2, 10 + d1 + d2 + d3):
+            ctx.fail(case, 'outer clock readings %r, expected %r' % (o, (10 + d1, 10 + d1, 10 + d1 + d2, 10 + d1 + d2 + d3)),
+                     family='nested-runs')
+        for x in obs:
+            if x[0] == 'inner' and (x[1] != start_in or x[3] != start_in + x[2]):
+                ctx.fail(case, 'inner wait %r did not end at start + d' % (x,), family='nested-runs')
+
+
+def time_untils(ctx, n):
+    """`async with until(<time condition>)`: the block ends at the date (at once when the date is reached already)"""
+    from harness import monitors
+
+    def timeonly(w):
+        return w[0] in ('delay', 'after', 'before', 'moment', 'eternity', 'instant', 'now')
+
+    def mon(sc, tr, probes, info):
+        return [(e, f) for (e, f) in monitors.mon_C07(sc, tr, probes, info) if f is None and e.startswith('until')
+                and 'notification fired' in e and _time_trigger(e, probes, timeonly)]
+    monitors.MONITORS['C01u'] = mon
+    machine_prop.run(ctx, [('untils', n, n, {})], ['C01u'], model=False)
+
+
+def _time_trigger(expl, probes, timeonly):
+    for p in probes:
+        if p[0] == 'scope_enter' and p[2] == 'until' and expl.startswith('until %r ' % (p[1],)):
+            return timeonly(p[3])
+    return False
 
 
 def search(ctx):
+    sd_backend(ctx, 400)
+    time_untils(ctx, 1500)
+
     # something broke (a proof obligation or the correspondence): look for a concrete failing input
     fams = [(p, max(nq * 6, 2000), max(nt, 20000) // 2, kw) for p, nq, nt, kw in FAMILIES]
     machine_prop.run(ctx, fams, MONITORS)
